@@ -174,8 +174,13 @@ type handler struct {
 	rw    RpcReadWriter
 	codec encoding.CodecV2
 
-	mu      sync.Mutex // protects streams
+	mu      sync.Mutex // protects streams, ended and endedRing
 	streams map[uint64]streamHandler
+	// ended remembers the streams this connection has most recently ended
+	// itself (a bounded number of them), see processStreamingRpc.
+	ended     map[uint64]struct{}
+	endedRing []uint64
+	endedNext int
 
 	writeChan    chan *goatorepo.Rpc
 	unaryRpcChan chan unaryRpcArgs
@@ -191,6 +196,7 @@ func newHandler(ctx context.Context, srv *Server, rw RpcReadWriter) *handler {
 		rw:           rw,
 		codec:        encoding.GetCodecV2(proto.Name),
 		streams:      map[uint64]streamHandler{},
+		ended:        map[uint64]struct{}{},
 		writeChan:    make(chan *goatorepo.Rpc),
 		unaryRpcChan: make(chan unaryRpcArgs),
 	}
@@ -522,6 +528,16 @@ func (h *handler) processStreamingRpc(
 		return nil
 	}
 
+	if _, ok := h.ended[rpc.Id]; ok && rpc.GetBody() != nil {
+		// A late message for a stream we have just ended ourselves: the caller
+		// has been, or is being, told how it ended. Answering each such message
+		// with a reset adds nothing, and a caller which sends everything before
+		// it receives - a client-streaming one has no other order - would have
+		// those resets queue up in front of the status it is waiting for, until
+		// neither side can move.
+		return nil
+	}
+
 	if rpc.GetBody() != nil {
 		// The first Rpc in a stream is used to tell the server to start the stream;
 		// it must have an empty body. If this isn't the case, it must be because
@@ -649,6 +665,17 @@ func (h *handler) unregisterStream(id uint64) {
 	if handler, ok := h.streams[id]; ok {
 		handler.cancel()
 		handler.done <- struct{}{}
+
+		// Remember it for a while, forgetting the oldest.
+		const rememberEnded = 64
+		if len(h.endedRing) < rememberEnded {
+			h.endedRing = append(h.endedRing, id)
+		} else {
+			delete(h.ended, h.endedRing[h.endedNext])
+			h.endedRing[h.endedNext] = id
+			h.endedNext = (h.endedNext + 1) % rememberEnded
+		}
+		h.ended[id] = struct{}{}
 	}
 
 	delete(h.streams, id)
